@@ -3,62 +3,14 @@ import Proofs.C16Ring
 import Proofs.C16Refresh
 import Proofs.C16Index
 import Proofs.C16RefreshIdx
-/-! helper lemmas: `View.refresh` (refreshRing with its session-level effects) — its ring is the ring of
-`Ring.refresh`; properties kept by its two primitive steps are kept by the refresh -/
+/-! helper lemmas: `View.refresh` (refreshRing with its session-level effects; repaired: removals first, then
+additions) — its ring is the ring of `Ring.refresh`; properties kept by its two primitive steps are kept by
+the refresh -/
 namespace C16
 open Ring ClusterView
 
 theorem startPoolFill_ring (env : Env) (v : View) (h : RHost) : (v.startPoolFill env h).ring = v.ring := rfl
 theorem removeHost_ring (env : Env) (v : View) (h : RHost) : (v.removeHost env h).ring = (v.ring.remove h.id).1 := rfl
-
-/-- the ring, prevHosts and result of one step of the view-level loop are those of the ring-level loop -/
-theorem stepV_sim (env : Env) (st : RState) (eff : Effects) (h : RHost) :
-    ∃ eff', (refreshStep env.filter (st.v.ring, st.prev, eff) h) =
-      (((refreshStepV env st h).1.v.ring, (refreshStepV env st h).1.prev, eff'), (refreshStepV env st h).2) := by
-  unfold refreshStep refreshStepV
-  cases hf : env.filter h with
-  | true => exact ⟨eff, by simp⟩
-  | false =>
-    simp only [Bool.false_eq_true, ↓reduceIte]
-    cases hl : lookup st.v.ring.byId h.id with
-    | none =>
-      rw [addIfMissing_of_none _ h hl]
-      exact ⟨_, rfl⟩
-    | some e0 =>
-      rw [addIfMissing_of_some _ h e0 hl]
-      dsimp only
-      cases hlp : lookup st.prev h.id with
-      | none => exact ⟨eff, rfl⟩
-      | some ex =>
-        dsimp only
-        by_cases hcond : (h.caddr == ex.caddr && h.addr == ex.addr) = true
-        · rw [if_pos hcond, if_pos hcond]; exact ⟨eff, rfl⟩
-        · rw [if_neg hcond, if_neg hcond]
-          rw [removeHost_ring]
-          cases hl2 : lookup (st.v.ring.remove ex.id).1.byId h.id with
-          | none =>
-            rw [addIfMissing_of_none _ h hl2]
-            exact ⟨_, rfl⟩
-          | some e3 =>
-            rw [addIfMissing_of_some _ h e3 hl2]
-            exact ⟨_, rfl⟩
-
-theorem loopV_sim (env : Env) (reported : List RHost) : ∀ (st : RState) (eff : Effects),
-    ∃ eff', (refreshLoop env.filter reported (st.v.ring, st.prev, eff)) =
-      (((refreshLoopV env reported st).1.v.ring, (refreshLoopV env reported st).1.prev, eff'), (refreshLoopV env reported st).2) := by
-  induction reported with
-  | nil => intro st eff; exact ⟨eff, rfl⟩
-  | cons h t ih =>
-    intro st eff
-    unfold refreshLoop refreshLoopV
-    obtain ⟨eff1, h1⟩ := stepV_sim env st eff h
-    rw [h1]
-    generalize refreshStepV env st h = res
-    obtain ⟨st', res'⟩ := res
-    dsimp only
-    by_cases hr : res' = .ok
-    · rw [if_pos hr, if_pos hr]; exact ih st' eff1
-    · rw [if_neg hr, if_neg hr]; exact ⟨eff1, rfl⟩
 
 theorem removeAllV_ring (env : Env) (prev : List (Nat × RHost)) : ∀ (v : View),
     (removeAllV env v prev).ring = removeAll v.ring prev := by
@@ -66,20 +18,32 @@ theorem removeAllV_ring (env : Env) (prev : List (Nat × RHost)) : ∀ (v : View
   | nil => intro v; rfl
   | cons p t ih => intro v; obtain ⟨k, x⟩ := p; simp only [removeAllV, removeAll]; rw [ih, removeHost_ring]
 
-/-- the ring after `View.refresh` and its result are those of `Ring.refresh` -/
+theorem addStepV_ring (env : Env) (v : View) (h : RHost) : (addStepV env v h).ring = (v.ring.addIfMissing h).1 := by
+  unfold addStepV
+  cases hl : lookup v.ring.byId h.id with
+  | none => rw [addIfMissing_of_none _ h hl]; rfl
+  | some e => rw [addIfMissing_of_some _ h e hl]
+
+theorem foldl_addStepV_ring (env : Env) (l : List RHost) : ∀ (v : View),
+    (l.foldl (addStepV env) v).ring = l.foldl (fun r h => (r.addIfMissing h).1) v.ring := by
+  induction l with
+  | nil => intro v; rfl
+  | cons h t ih => intro v; simp only [List.foldl_cons]; rw [ih, addStepV_ring]
+
+/-- the accepted (not filtered) reported hosts -/
+def accepted (env : Env) (reported : List RHost) : List RHost := reported.filter (fun h => !env.filter h)
+
+/-- the hosts removed by pass 1 of `View.refresh` -/
+def goneV (env : Env) (v : View) (reported : List RHost) : List (Nat × RHost) := goneOf v.ring env.filter reported
+
+theorem refreshV_eq (env : Env) (v : View) (reported : List RHost) :
+    v.refresh env reported = (accepted env reported).foldl (addStepV env) (removeAllV env v (goneV env v reported)) := rfl
+
+/-- the ring after `View.refresh` is the ring of `Ring.refresh` -/
 theorem refreshV_ring (env : Env) (v : View) (reported : List RHost) :
-    (v.refresh env reported).1.ring = (v.ring.refresh env.filter reported).1 ∧
-    (v.refresh env reported).2 = (v.ring.refresh env.filter reported).2.1 := by
-  unfold View.refresh Ring.refresh
-  obtain ⟨eff', h1⟩ := loopV_sim env reported ⟨v, v.ring.byId⟩ {}
-  dsimp only at h1
-  rw [h1]
-  generalize refreshLoopV env reported ⟨v, v.ring.byId⟩ = res
-  obtain ⟨st', res'⟩ := res
-  cases res' with
-  | ok => exact ⟨removeAllV_ring env st'.prev st'.v, rfl⟩
-  | errCannotFind => exact ⟨rfl, rfl⟩
-  | errAlreadyExists => exact ⟨rfl, rfl⟩
+    (v.refresh env reported).ring = (v.ring.refresh env.filter reported).1 := by
+  rw [refreshV_eq, foldl_addStepV_ring, removeAllV_ring, refresh_ring]
+  rfl
 
 /-! ### any property kept by the two primitive steps is kept by a refresh -/
 
@@ -87,58 +51,15 @@ theorem refreshV_ring (env : Env) (v : View) (reported : List RHost) :
 def View.addNew (env : Env) (v : View) (h : RHost) : View :=
   ({ v with ring := (v.ring.addIfMissing h).1 }).startPoolFill env h
 
-theorem stepV_preserves (env : Env) (P : View → Prop)
-    (hadd : ∀ v h, P v → lookup v.ring.byId h.id = none → P (View.addNew env v h))
-    (hrm : ∀ v h, P v → P (v.removeHost env h))
-    (st : RState) (h : RHost) (hp : P st.v) : P (refreshStepV env st h).1.v := by
-  unfold refreshStepV
-  cases hf : env.filter h with
-  | true => simpa using hp
-  | false =>
-    simp only [Bool.false_eq_true, ↓reduceIte]
-    cases hl : lookup st.v.ring.byId h.id with
-    | none =>
-      have := hadd st.v h hp hl
-      unfold View.addNew at this
-      rw [addIfMissing_of_none _ h hl] at this ⊢
-      exact this
-    | some e0 =>
-      rw [addIfMissing_of_some _ h e0 hl]
-      dsimp only
-      cases hlp : lookup st.prev h.id with
-      | none => exact hp
-      | some ex =>
-        dsimp only
-        by_cases hcond : (h.caddr == ex.caddr && h.addr == ex.addr) = true
-        · rw [if_pos hcond]; exact hp
-        · rw [if_neg hcond]
-          have hp2 := hrm st.v ex hp
-          cases hl2 : lookup (st.v.removeHost env ex).ring.byId h.id with
-          | none =>
-            have := hadd _ h hp2 hl2
-            unfold View.addNew at this
-            rw [addIfMissing_of_none _ h hl2] at this ⊢
-            exact this
-          | some e3 =>
-            rw [addIfMissing_of_some _ h e3 hl2]
-            exact hp2
+theorem addStepV_of_none (env : Env) (v : View) (h : RHost) (hl : lookup v.ring.byId h.id = none) :
+    addStepV env v h = View.addNew env v h := by
+  unfold addStepV View.addNew
+  rw [addIfMissing_of_none _ h hl]
 
-theorem loopV_preserves (env : Env) (P : View → Prop)
-    (hadd : ∀ v h, P v → lookup v.ring.byId h.id = none → P (View.addNew env v h))
-    (hrm : ∀ v h, P v → P (v.removeHost env h)) (reported : List RHost) :
-    ∀ (st : RState), P st.v → P (refreshLoopV env reported st).1.v := by
-  induction reported with
-  | nil => intro st hp; exact hp
-  | cons h t ih =>
-    intro st hp
-    unfold refreshLoopV
-    have := stepV_preserves env P hadd hrm st h hp
-    generalize refreshStepV env st h = res at this
-    obtain ⟨st', res'⟩ := res
-    dsimp only at this ⊢
-    split
-    · exact ih st' this
-    · exact this
+theorem addStepV_of_some (env : Env) (v : View) (h e : RHost) (hl : lookup v.ring.byId h.id = some e) :
+    addStepV env v h = v := by
+  unfold addStepV
+  rw [addIfMissing_of_some _ h e hl]
 
 theorem removeAllV_preserves (env : Env) (P : View → Prop) (hrm : ∀ v h, P v → P (v.removeHost env h))
     (prev : List (Nat × RHost)) : ∀ v, P v → P (removeAllV env v prev) := by
@@ -146,18 +67,24 @@ theorem removeAllV_preserves (env : Env) (P : View → Prop) (hrm : ∀ v h, P v
   | nil => intro v hp; exact hp
   | cons p t ih => intro v hp; obtain ⟨k, x⟩ := p; exact ih _ (hrm v x hp)
 
+theorem addAllV_preserves (env : Env) (P : View → Prop)
+    (hadd : ∀ v h, P v → lookup v.ring.byId h.id = none → P (View.addNew env v h)) (l : List RHost) :
+    ∀ v, P v → P (l.foldl (addStepV env) v) := by
+  induction l with
+  | nil => intro v hp; exact hp
+  | cons h t ih =>
+    intro v hp
+    simp only [List.foldl_cons]
+    apply ih
+    cases hl : lookup v.ring.byId h.id with
+    | none => rw [addStepV_of_none env v h hl]; exact hadd v h hp hl
+    | some e => rw [addStepV_of_some env v h e hl]; exact hp
+
 theorem refreshV_preserves (env : Env) (P : View → Prop)
     (hadd : ∀ v h, P v → lookup v.ring.byId h.id = none → P (View.addNew env v h))
     (hrm : ∀ v h, P v → P (v.removeHost env h)) (v : View) (hp : P v) (reported : List RHost) :
-    P (v.refresh env reported).1 := by
-  have := loopV_preserves env P hadd hrm reported ⟨v, v.ring.byId⟩ hp
-  unfold View.refresh
-  generalize refreshLoopV env reported ⟨v, v.ring.byId⟩ = res at this
-  obtain ⟨st', res'⟩ := res
-  dsimp only at this
-  cases res' with
-  | ok => exact removeAllV_preserves env P hrm st'.prev st'.v this
-  | errCannotFind => exact this
-  | errAlreadyExists => exact this
+    P (v.refresh env reported) := by
+  rw [refreshV_eq]
+  exact addAllV_preserves env P hadd _ _ (removeAllV_preserves env P hrm _ v hp)
 
 end C16
